@@ -123,6 +123,23 @@ def step (st : St) (toks : List String) : St × List String :=
     | some r =>
       (st, s!"res n={r.1.length} more={b2s r.2}" ::
         r.1.map (fun o => s!"r {o.key.time} {showList o.key.tags} {o.key.skey} {showData o.data}"))
+  | ["seltab"] =>
+    -- DigestWhat.Selector() for every code 0..29
+    (st, ["seltab " ++ " ".intercalate ((List.range 30).map (fun d => s!"{(selectorOf d).1}:{(selectorOf d).2}"))])
+  | ["whats", ds, fs] =>
+    -- the requested functions in request order (digest codes, value field of each): run getHandlerWhat, use its
+    -- grouping as the request's columns
+    match parseNatList? ds, kv? fs "f=" >>= parseNatList? with
+    | some ds, some fs =>
+      if ds.length ≠ fs.length then bad st else
+      let request : List Fn := (ds.zip fs).map (fun p => ⟨p.1, p.2⟩)
+      let gs := getHandlerWhat request
+      let showSel := "/".intercalate (gs.map (fun g => showList (g.sel.map (·.digest))))
+      let showQry := "/".intercalate (gs.map (fun g =>
+        ",".intercalate ((g.qry ++ List.replicate (tsValueCount - g.qry.length) (0, 0)).map (fun p => s!"{p.1}:{p.2}"))))
+      ({ st with req := { st.req with cols := colsOf request } },
+        [s!"hw sorted={showList ((sortFns request).map (·.digest))} sel={if gs.isEmpty then "-" else showSel} qry={if gs.isEmpty then "-" else showQry}"])
+    | _, _ => bad st
   | ["cmp", t1, tg1, sk1, "/", t2, tg2, sk2] =>
     -- queryTableRows.Less on two row markers
     match parseMarker? t1 tg1 sk1, parseMarker? t2 tg2 sk2 with
